@@ -30,6 +30,20 @@ def _not_nothing(dg):
             return d
 
 
+def _json_equal(a, b):
+    if isinstance(a, bool) or isinstance(b, bool):
+        return isinstance(a, bool) and isinstance(b, bool) and a == b
+    if isinstance(a, (int, float)) and isinstance(b, (int, float)):
+        return a == b
+    if type(a) is not type(b):
+        return False
+    if isinstance(a, list):
+        return len(a) == len(b) and all(_json_equal(x, y) for x, y in zip(a, b))
+    if isinstance(a, dict):
+        return set(a) == set(b) and all(_json_equal(a[k], b[k]) for k in a)
+    return a == b
+
+
 def reconfig_ops(rng, el, dg):
     """One random reconfiguration step applied to the real element; returns a description."""
     ops = []
@@ -43,7 +57,7 @@ def reconfig_ops(rng, el, dg):
         ("uniqueItems", lambda: rng.choice([True, False])),
         ("minProperties", lambda: rng.choice([0, 1, 2])), ("maxProperties", lambda: rng.choice([0, 1, 2, 3])),
         ("required", lambda: rng.sample(["a", "b", "c", "zz"], rng.choice([0, 1, 2]))),
-        ("const", lambda: rng.choice([1, "a", None, [1], {"a": 1}, True])),
+        ("const", lambda: rng.choice([1, "a", None, [1], {"a": 1}, True, 1.0, 0, False, 0.0])),
         ("enum", lambda: rng.sample([1, 2, "a", None, True, [1]], rng.choice([1, 2, 3]))),
         ("default", lambda: rng.choice([1, "a", None, [], {"a": 1}, False])),
         ("additionalProperties", lambda: rng.choice([True, False, dsl.build(_not_nothing(dg))])),
@@ -54,6 +68,18 @@ def reconfig_ops(rng, el, dg):
         ("patternProperties", lambda: {rng.choice(PATTERNS): dsl.build(dg.leaf())}),
         ("dependencies", lambda: {rng.choice(["a", "b"]): rng.choice([["c"], dsl.build(dg.leaf())])}),
     ]
+    members = getattr(el, "elements", None)
+    if isinstance(members, list) and not is_class and rng.random() < 0.35:
+        new = list(members)
+        how = rng.random()
+        if how < 0.4 and len(new) > 1:
+            del new[rng.randrange(len(new))]
+        elif how < 0.7:
+            new[rng.randrange(len(new))] = dsl.build(dg.leaf())
+        else:
+            new.insert(rng.randrange(len(new) + 1), dsl.build(dg.leaf()))
+        el.elements = new
+        return "set elements"
     kind = rng.random()
     props = getattr(el, "properties", None)
     has_props = props is not None and not isinstance(props, core.NotPassed)
@@ -126,6 +152,15 @@ def compare(drv, el, values, out, stats, history, origin):
             fr = core.real_call(fresh, v)
             if fr["r"] in ("ok", "reject") and fr["r"] != real["r"]:
                 out.failures.append({"case": case, "what": f"reconfigured element answers {real['r']}, a fresh element with the same configuration {fr['r']}", "finding": None})
+            elif fr["r"] == "ok" and fr != real:
+                out.failures.append({"case": case, "what": f"reconfigured / used element returns {str(real.get('v'))[:120]}, a fresh element with the same configuration "
+                                     f"{str(fr.get('v'))[:120]}", "finding": None})
+        # a reference that no state inside the process can reach: an accepted value equals the current `const`
+        # as JSON values (true is not 1; 1 is 1.0)
+        ckw = dump.get("kw", {})
+        if "const" in ckw and real["r"] == "ok" and not isinstance(v, core.NotPassed):
+            if not _json_equal(dsl.dec_val(ckw["const"]), v):
+                out.failures.append({"case": case, "what": f"accepted {v!r} although the current const is {dsl.dec_val(ckw['const'])!r}", "finding": None})
     # the configuration is what the reconfiguration steps made it: calls must not have moved it
     try:
         after = core.dump_elem(el)
@@ -176,7 +211,28 @@ def run(ctx, scale=1.0):
                     schema = dump_to_schema(core.dump_elem(el))
                 except Exception:  # noqa: BLE001
                     schema = {}
-                compare(drv, el, vg.values(schema, 4) + [{"a": 1}, core.NP], out, stats, history, origin)
+                compare(drv, el, vg.values(schema, 4) + [{"a": 1}, core.NP, True, 1, 1.0, 0, False], out, stats, history, origin)
+        # compositions over overlapping branches: which branch answers must depend on the value and the configuration only
+        strict = {"cls": "Object", "name": "Strict", "kw": {"hasProps": True, "addPropsB": False}, "props": [[{"name": "value", "source": "value"}, {"cls": "Integer", "kw": {}}]]}
+        loose = {"cls": "Object", "name": "Loose", "kw": {"hasProps": True}, "props": [[{"name": "value", "source": "value"}, {"cls": "Integer", "kw": {}}],
+                                                                                      [{"name": "unit", "source": "unit"}, {"cls": "String", "kw": {"default": "none"}}]]}
+        for i in range(int((12 if ctx["tier"] == "quick" else 300) * scale)):
+            mode = rng.choice(["AnyOf", "AnyOf", "OneOf", "AllOf"])
+            members = [strict, loose] if rng.random() < 0.7 else [loose, strict]
+            if rng.random() < 0.4:
+                members = members + [{"cls": "String", "kw": {}}]
+            dump = {"cls": mode, "kw": {}, "elements": members}
+            if rng.random() < 0.5:
+                dump = {"cls": "Array", "kw": {"itemsKind": "single"}, "items": [dump]}
+            el = dsl.build(dump)
+            history = []
+            both, second_only = {"value": 1}, {"value": 2, "unit": "m"}
+            seq = [both, second_only, both, "s", {"value": 3, "extra": 1}, both]
+            rng.shuffle(seq)
+            for v in seq:
+                vv = [v] if dump["cls"] == "Array" else v
+                compare(drv, el, [vv, [both, second_only, both] if dump["cls"] == "Array" else both], out, stats, history, "composition-family")
+                history.append(f"call {v!r}")
     finally:
         drv.close()
     out.stats = stats
